@@ -651,7 +651,7 @@ pub fn gen_instance(rng: &mut Rng, p: &Profile) -> Inst {
     }
     // routes
     let nroutes = rng.range(1, 3.max(ntypes as u64)) as usize;
-    let mut routes = vec![];
+    let mut routes: Vec<Route> = vec![];
     for r in 0..nroutes {
         // make sure every type has a route with reasonable probability
         let vt = if r < ntypes && rng.chance(80) { r } else { rng.below(ntypes as u64) as usize };
@@ -702,6 +702,15 @@ pub fn gen_instance(rng: &mut Rng, p: &Profile) -> Inst {
                 0 => 0,
                 1 => (vt.seats * k).saturating_sub(rng.below(vt.seats)),
                 _ => passengers.min(vt.seats * rng.range(1, k)),
+            };
+            // boundary of the two vehicle requirements: passengers fill k vehicles exactly while the
+            // seated passengers need one more (k * seats < seated <= (k + 1) * seats)
+            let (passengers, seated) = if vt.capacity > vt.seats && rng.chance(15) {
+                let room = (vt.capacity - vt.seats) * k;
+                let r = rng.range(1, vt.seats).min(room);
+                (vt.capacity * k, vt.seats * k + r)
+            } else {
+                (passengers, seated)
             };
             segs.push(DSeg { rseg: j, departure: t, passengers, seated });
             t += routes[route].segs[j].duration + GRID * *rng.pick(&[0u64, 0, 1, 2]);
@@ -785,6 +794,23 @@ pub fn gen_instance(rng: &mut Rng, p: &Profile) -> Inst {
             };
             dh_dur[a][b] = dur;
             dh_dist[a][b] = dist;
+        }
+    }
+    // metre resolution (odd distances): sums that differ by a single metre (C08: the levels of the
+    // objective are compared exactly, also above 2^24)
+    let metre = rng.chance(35);
+    if metre {
+        for a in 0..nlocs {
+            for b in 0..nlocs {
+                if dh_dist[a][b] > 0 {
+                    dh_dist[a][b] += rng.below(10);
+                }
+            }
+        }
+        for r in routes.iter_mut() {
+            for g in r.segs.iter_mut() {
+                g.distance += rng.below(10);
+            }
         }
     }
     if p.non_transitive {
